@@ -1,7 +1,9 @@
 (* Extraction of the executable models to OCaml.  Directives used: exactly those of
    ExtrOcamlBasic and ExtrOCamlFloats (standard library), nothing else. *)
 From Coq Require Import Extraction ExtrOcamlBasic ExtrOCamlFloats.
-From PV Require Import Num model.Optimiser model.Parse.
+From PV Require Import Num model.Optimiser model.Parse model.Geom.
 Extraction Language OCaml.
 Extraction "extract/model.ml" NumF build optimise run run_states init advance accept
-  from_operations_l.
+  from_operations_l
+  positions to_cartesian_isometry periodic_images cell_area packed_score check_intersection
+  shape_transform shape_intersects lj_score lj_energy ljshape_energy.
